@@ -16,9 +16,11 @@ _program_src = _mod.program_src
 IMPORTS = "From JV Require Import Lib.Base Lib.C12Syntax Model.C12Cli Spec.C12CliSpec Corr.C12Judge."
 RULE = ("seeded random programs: a function, a class with 0-3 methods, a list of 2-4 functions/classes, or a nested "
         "dict (depth <=3, optional _help entries) of them; signatures of 0-6 parameters over int/str/bool/List[int]/"
-        "Optional[int]/Optional[str], with/without default (incl. `= None` on a non-Optional type), positional-or-keyword "
-        "and keyword-only, private (_x) names, names shared between constructor and methods, and (rarely) the names "
-        "config/subcommand/help/print_config; as_positional True and False. Per program 8 command lines: values given "
+        "Optional[int]/Optional[str]/Optional[List[int]], with/without default (incl. `= None` on a non-Optional type), positional-or-keyword "
+        "and keyword-only, private (_x) names, names that are attributes of jsonargparse.Namespace (items, keys, values, get, "
+        "pop, update, clone, as_dict), str defaults that a YAML reader would not leave a string (null, ~, 5, true, '', 1e3), "
+        "names shared between constructor and methods, and (rarely) the names config/subcommand/help/print_config "
+        "(subcommand also as constructor parameter of a class without methods); as_positional True and False. Per program 8 command lines: values given "
         "by option, positionally, by --config (inline JSON or file, at the level itself or as a section of an enclosing "
         "level), repeated (last wins) or omitted, in shuffled order, plus ~20% invalid lines (unknown option/key, wrong "
         "type, missing required, extra word, unknown/missing subcommand, --config where the level has none). "
@@ -38,7 +40,7 @@ ASSUMPTIONS = [
     "Python 3.12.1 an abbreviation that is ambiguous in the PARENT parser even breaks subcommand options)",
     "argparse takes an UNKNOWN option whose text contains a space (`--k=[1, 2]`) for a positional value: such words are not "
     "generated as invalid options (tokenisation is argparse's business)",
-    "not generated (model answers EUnmodelled): constructor parameter named subcommand or like a method, subcommand named "
+    "not generated (model answers EUnmodelled): constructor parameter named subcommand of a class with methods, or named like a method, subcommand named "
     "config, --config sections for a subcommand other than the chosen one, subcommand chosen by the config (C17)",
 ]
 EXHAUSTIVE = {"quick": False, "thorough": False}
@@ -617,8 +619,9 @@ META = {
                   "tree (function, class with any number of methods, list, nested dict of any depth with _help entries), every "
                   "signature list (any length, types, defaults, private names), every tokenised command line (options, bare words, "
                   "--config documents with nested sections, repeated and shuffled), every text->value conversion function and both "
-                  "values of as_positional: if no function parameter is called `subcommand`, no method parameter `config`, and no "
-                  "private parameter is Optional without default, then the code-shaped model of auto_cli (argparse table of "
+                  "values of as_positional: if no class constructor has a parameter called `subcommand` and no Optional parameter "
+                  "has a str default that YAML reads as null, then the code-shaped model of the PRESENT auto_cli (after the round-2 "
+                  "repairs 5bbebb1/2f69862; the two guards of round 1 are gone) (argparse table of "
                   "_add_signature_parameter, per-level namespaces, nested Namespace, dotted-key dispatch loop, _run_component with "
                   "its pops, CPython keyword binding) and the reference semantics agree on every outcome: same call log and "
                   "returned value (the selected component once; constructor then chosen method for a class; each parameter bound "
@@ -630,8 +633,10 @@ META = {
                   "C12_given_else_default, C12_selected_only (dict/list: the first bare word selects, the log is that entry's), "
                   "C12_function_called_once, C12_class_split (model level: constructor and method each get exactly their own "
                   "parameters, method's return value returned), C12_required_iff_no_default and C12_optional_defaults_none (on the "
-                  "code-shaped arg_of_param). C12_reserved_names_refuted, C12_reserved_config_refuted, C12_private_optional_refuted "
-                  "exhibit the inputs on which the unchanged code violates the property (both guards are needed); "
+                  "code-shaped arg_of_param). C12_class_subcommand_refuted and C12_nullish_default_refuted exhibit the "
+                  "inputs on which the present code violates the property (both guards are needed); C12_reserved_names_refuted, "
+                  "C12_reserved_config_refuted, C12_private_optional_refuted are regression witnesses about the pre-repair model "
+                  "(auto_cli true) and C12_round1_inputs_repaired shows the same inputs on the present model; "
                   "C12_guards_satisfiable is a non-trivial input inside the guards. The model is tied to the real auto_cli by "
                   "generated Python modules whose callees record their arguments; model- and spec-agreement are computed inside Coq.",
     "level_note": "Partial. Proved for all inputs of the modelled space; NOT modelled (trusted or only exercised): introspection "
@@ -640,12 +645,12 @@ META = {
                   "(a parameter of every theorem; the run uses canonical texts of int/str/bool/List[int]/Optional); CPython's keyword "
                   "call binding (modelled as bind_params, trusted); keyword-only vs positional-or-keyword kind (irrelevant to a "
                   "**kwargs call, exercised); --config given as a file (exercised). The model answers EUnmodelled (nothing claimed, "
-                  "never generated) for: constructor parameter named `subcommand` or like a method, subcommand named `config`, "
+                  "never generated) for: constructor parameter named `subcommand` of a class WITH methods or named like a method, subcommand named `config`, "
                   "--config sections for another subcommand than the chosen one, subcommand chosen by the config (C17), duplicate "
                   "or empty names, a parameter named print_shtab. async components, set_defaults, fail_untyped=False, properties "
-                  "as subcommands, dataclass/subclass-typed parameters are outside the model. Known findings (both reproduced "
-                  "bug-for-bug by the model, both with a fix patch in fixes/): reserved-param-names and "
-                  "private-optional-without-default.",
+                  "as subcommands, dataclass/subclass-typed parameters are outside the model. Round-1 findings reserved-param-names and "
+                  "private-optional-without-default are repaired in /repo. Open findings (reproduced bug-for-bug by the model): "
+                  "class-subcommand-param (fix patch in fixes/) and nullish-str-default (no safe fix).",
     "technique": "Rocq proof by simulation/refinement (code-shaped namespace fold vs. last-assignment reference semantics, induction over "
                  "token lists and frame chains, all component trees) + generated-program correspondence (real modules, real auto_cli) "
                  "judged inside Coq",
